@@ -20,6 +20,7 @@ package metrics
 import (
 	"bytes"
 	"sort"
+	"strings"
 
 	jp "github.com/buger/jsonparser"
 	"github.com/cespare/xxhash"
@@ -60,7 +61,16 @@ func GetTagsHolder() *TagsHolder {
 	return holder
 }
 
+// tag keys become file names of the tags tree (tth/<mid>/<suffix>/<tagKey>)
+func isTagKeySafeForPath(key string) bool {
+	return key != "" && key != "." && key != ".." && !strings.ContainsAny(key, "/\\\x00")
+}
+
 func (th *TagsHolder) Insert(key string, value []byte, vType jp.ValueType) {
+	if !isTagKeySafeForPath(key) {
+		log.Errorf("TagsHolder.Insert: dropping tag with a key that is not a valid file name: %q", key)
+		return
+	}
 	th.len = len(th.entries)
 	th.entries[th.idx].tagKey = key
 	th.entries[th.idx].tagValue = value
